@@ -19,14 +19,10 @@ theorem applyOp_mem {s s' : Snap} {o : Op} (h : applyOp s o = some s') {key : Ke
     rcases hk with rfl | hk
     · right; simp [addKeys]
     · exact Or.inl hk
-  · split at h
-    · cases h
-      exact Or.inl (List.mem_filter.mp hk).1
-    · cases h
+  · cases h
+    exact Or.inl (List.mem_filter.mp hk).1
   · cases h; exact Or.inl hk
-  · split at h
-    · cases h; exact Or.inl hk
-    · cases h
+  · cases h; exact Or.inl hk
 
 theorem addKeys_cons (o : Op) (r : List Op) : addKeys (o :: r) = addKeys [o] ++ addKeys r := by
   cases o <;> simp [addKeys]
@@ -67,14 +63,12 @@ theorem applyOps_del : ∀ (ops : List Op) {s s' : Snap}, applyOps s ops = some 
           cases o <;> simp [delKeys] at hd1
           subst hd1
           simp only [applyOp] at h1
-          split at h1
-          · cases h1
-            intro hk
-            rcases applyOps_mem r h hk with h2 | h2
-            · have := (List.mem_filter.mp h2).2
-              simp at this
-            · exact hna2 h2
-          · cases h1
+          cases h1
+          intro hk
+          rcases applyOps_mem r h hk with h2 | h2
+          · have := (List.mem_filter.mp h2).2
+            simp at this
+          · exact hna2 h2
         · exact applyOps_del r h hd2 hna2
       · cases h
 
